@@ -1,3 +1,5 @@
+//go:build !no_c14_fuzz
+
 package props
 
 import (
